@@ -285,10 +285,12 @@ def drive(acc, fn_name, fn, cases, shard, nshards, family=None, deadline=None,
     global CUR
     CUR = acc
     family = family or fn_name
+    nown = 0
     for idx, case in enumerate(cases):
         if not owns(idx, shard, nshards):
             continue
-        if deadline is not None and (idx & 63) == 0 and time.time() > deadline:
+        nown += 1
+        if deadline is not None and (nown & 15) == 0 and time.time() > deadline:
             acc.capped.append(family)
             break
         acc.case(family)
